@@ -123,3 +123,30 @@ pub fn y_cls(kind: usize, k: usize, n: usize, i: usize, seed: u64) -> usize {
         _ => ((frac((i + 1) as f64 * PLA + rot) * k as f64).floor() as usize).min(k - 1),
     }
 }
+
+// ------------------------------------------------------------------------------------------------
+// Extension (round 2): real-valued class-label tables and regression targets with a common offset
+
+/// Real-valued label tables (letter -> original label value): span = k-1 without unit spacing
+/// (three of them, one with k = 4 whose upper three labels again span k-1), unit spacing with a
+/// fractional offset, two labels with the same integer part, large labels with unit / non-unit gaps.
+pub const REAL_TABLES: [&[f64]; 6] =
+    [&[0.0, 0.5, 2.0], &[1.0, 1.5, 3.0], &[-1.5, -0.5, 0.25, 1.5], &[0.5, 1.5, 2.5], &[0.25, 0.75], &[300_000_001.0, 300_000_002.0, 300_000_005.0]];
+
+/// Label of letter `l` in table `t`; `seed` rotates the letter -> label assignment (seed 0: identity).
+pub fn table_label(t: usize, l: usize, seed: u64) -> f64 {
+    let tab = REAL_TABLES[t % REAL_TABLES.len()];
+    tab[(l + (seed % 8) as usize) % tab.len()]
+}
+
+/// Common offsets of the regression targets y = offset + small.
+pub const OFFSETS: [f64; 3] = [1013.25, 20000.0, 1e6];
+
+/// `offset + small`, exactly: `small` is first rounded to a multiple of 2^-8 (a no-op for the
+/// dyadic alphabets), so that the sum is representable and `y - offset` gives `small` back.
+pub fn offset_target(offset: f64, small: f64) -> f64 {
+    let q = (small * 256.0).round() / 256.0;
+    let y = offset + q;
+    assert!(y - offset == q, "offset target {} + {} is not exactly representable", offset, q);
+    y
+}
